@@ -49,7 +49,7 @@ def make_units(seed, n, wd):
         except Exception:
             ref = None
         for r in g.exported():
-            for s in inputs_mod.inputs_for(g, r.name, irnd, n_sent=6, n_total=(30 if prof in ("unicode", "charclass") else 16), unicode_heavy=(prof in ("unicode", "mix", "charclass"))):
+            for s in inputs_mod.inputs_for(g, r.name, irnd, n_sent=6, n_total=(30 if prof in ("unicode", "charclass") else 16), unicode_heavy=(prof in ("unicode", "mix", "charclass")), ws_inject=(prof in ("core", "trace", "memo", "leftrec"))):
                 budget = 50000000
                 if ref is not None:
                     try:
